@@ -43,9 +43,10 @@ type frameSpec struct {
 	ihl              int // 32-bit words, 5..15
 	proto            byte
 	version          byte
-	totLenDelta      int // added to the true total length
-	padding          int // link-layer bytes after the IP datagram
-	cutAt            int // >=0: the frame is truncated to this many bytes
+	totLenDelta      int    // added to the true total length
+	padding          int    // link-layer bytes after the IP datagram
+	cutAt            int    // >=0: the frame is truncated to this many bytes
+	flagsFO          uint16 // flags and fragment offset word (0x4000 = don't fragment)
 }
 
 // buildFrame encodes an IPv4/UDP frame with correct checksums for the header as written.
@@ -57,6 +58,7 @@ func buildFrame(f frameSpec) []byte {
 	b[0] = f.version<<4 | byte(f.ihl&0xf)
 	binary.BigEndian.PutUint16(b[2:], uint16(tot+f.totLenDelta))
 	binary.BigEndian.PutUint16(b[4:], 0x1234)
+	binary.BigEndian.PutUint16(b[6:], f.flagsFO)
 	b[8] = 64
 	b[9] = f.proto
 	copy(b[12:16], f.srcIP[:])
@@ -94,6 +96,7 @@ func buildFrame(f frameSpec) []byte {
 type rawExpect struct {
 	payload []byte
 	src     net.UDPAddr
+	bufLen  int // > 0: the reader offered fewer bytes than the payload; the frame may be returned cut to bufLen bytes or skipped
 }
 
 // nicAccept is the reference decision: is this frame a well-formed IPv4/UDP datagram for the bound address?
@@ -124,11 +127,12 @@ func nicAccept(b []byte, bound *net.UDPAddr) (rawExpect, bool) {
 }
 
 type rawRead struct {
-	seq  int
-	n    int
-	data []byte
-	src  net.Addr
-	err  error
+	bufLen int
+	seq    int
+	n      int
+	data   []byte
+	src    net.Addr
+	err    error
 }
 
 type rawWrite struct {
@@ -231,6 +235,10 @@ func (st *rawState) start() {
 			}
 			s.Ev("link.rx", -1, int64(n), d.tag, nil)
 			if e, ok := nicAccept(b, st.bound); ok {
+				if len(e.payload) > st.curBuf {
+					e.bufLen = st.curBuf
+					s.Probe("reader-buffer-smaller-than-payload")
+				}
 				st.expect = append(st.expect, e)
 			}
 		}
@@ -246,6 +254,9 @@ func (st *rawState) start() {
 		j.Go("reader", func() {
 			for {
 				size := []int{1500, 1500, 2048, 4096, 1536}[t.Choose(5)]
+				if t.Coin(1, 8) {
+					size = []int{1, 64, 300, 548, 1000, 1499}[t.Choose(6)] // smaller than some payloads
+				}
 				buf := make([]byte, size)
 				st.curBuf = size
 				for k := range buf {
@@ -254,7 +265,7 @@ func (st *rawState) start() {
 				s.EnterSUT()
 				n, src, err := upc.ReadFrom(buf)
 				s.LeaveSUT()
-				r := rawRead{n: n, src: src, err: err}
+				r := rawRead{n: n, src: src, err: err, bufLen: size}
 				if err == nil && n >= 0 && n <= len(buf) {
 					r.data = append([]byte(nil), buf[:n]...)
 				}
@@ -353,6 +364,10 @@ func (st *rawState) frame(i int) ([]byte, string) {
 		}
 	}
 	f.payload = rawPayload(t, 1000+i)
+	if t.Coin(1, 3) {
+		f.flagsFO = 0x4000 // don't-fragment, as most stacks send; still a whole datagram
+		s.Fault("frame-df-flag")
+	}
 	tag := "valid"
 	switch t.Weighted(8, 3, 3, 2, 2, 2, 2, 2, 2, 2, 1, 1, 1) {
 	case 1:
@@ -510,29 +525,53 @@ func (st *rawState) oracle(v *vio) {
 			v.add("W-udpcsum", "write %d: UDP checksum does not verify under RFC 768/1071 (sum %#04x, %d-byte payload)", i, sum, len(w.payload))
 		}
 	}
-	// ---- read side: results equal, in order, the accepted frames
+	// ---- read side: results equal, in order, the accepted frames. A frame whose
+	// payload did not fit the reader's buffer may be returned cut to the buffer or skipped.
 	ok := 0
+	nret := 0
 	for _, r := range st.reads {
 		if r.err != nil {
 			continue
 		}
-		if ok >= len(st.expect) {
-			v.add("R-spurious", "ReadFrom returned %d bytes from %v although no (further) well-formed frame for %v had been read from the link", r.n, r.src, st.bound)
-			ok++
+		nret++
+		if r.n < 0 || r.n > r.bufLen {
+			v.add("R-count", "ReadFrom returned n=%d for a %d-byte buffer", r.n, r.bufLen)
 			continue
 		}
-		e := st.expect[ok]
-		ok++
-		if r.n != len(e.payload) || !bytes.Equal(r.data, e.payload) {
-			v.add("R-payload", "read %d: got %d bytes, want the %d-byte UDP payload bounded by the IP total length (padding or header bytes returned, or payload cut)", ok-1, r.n, len(e.payload))
+		matched := false
+		for ok < len(st.expect) {
+			e := st.expect[ok]
+			ok++
+			if e.bufLen > 0 {
+				ua, isUDP := r.src.(*net.UDPAddr)
+				if r.n == e.bufLen && bytes.Equal(r.data, e.payload[:e.bufLen]) && isUDP && ua.IP.Equal(e.src.IP) && ua.Port == e.src.Port {
+					matched = true
+					break
+				}
+				continue // skipped: allowed for a frame that did not fit
+			}
+			matched = true
+			if r.n != len(e.payload) || !bytes.Equal(r.data, e.payload) {
+				v.add("R-payload", "read %d: got %d bytes, want the %d-byte UDP payload bounded by the IP total length (padding or header bytes returned, or payload cut)", nret-1, r.n, len(e.payload))
+			}
+			ua, isUDP := r.src.(*net.UDPAddr)
+			if !isUDP || !ua.IP.Equal(e.src.IP) || ua.Port != e.src.Port {
+				v.add("R-source", "read %d: source %v, want %v", nret-1, r.src, &e.src)
+			}
+			break
 		}
-		ua, isUDP := r.src.(*net.UDPAddr)
-		if !isUDP || !ua.IP.Equal(e.src.IP) || ua.Port != e.src.Port {
-			v.add("R-source", "read %d: source %v, want %v", ok-1, r.src, &e.src)
+		if !matched {
+			v.add("R-spurious", "ReadFrom returned %d bytes from %v although no (further) well-formed frame for %v had been read from the link", r.n, r.src, st.bound)
 		}
 	}
-	if ok < len(st.expect) {
-		v.add("R-missed", "%d well-formed frame(s) addressed to %v were read from the link but never returned by ReadFrom (%d returned)", len(st.expect)-ok, st.bound, ok)
+	missed := 0
+	for _, e := range st.expect[ok:] {
+		if e.bufLen == 0 {
+			missed++
+		}
+	}
+	if missed > 0 {
+		v.add("R-missed", "%d well-formed frame(s) addressed to %v were read from the link but never returned by ReadFrom (%d returned)", missed, st.bound, nret)
 	}
 	// an underlying read error or close is returned as such, once each
 	injected := 0
